@@ -77,6 +77,16 @@ def check_npa(ctx, rule_prefix="R-SDP"):
                 fam["one-player-B"] = c
             elif "word in seen" in cs:
                 fam["seen"] = c
+            elif "_is_meas_on_one_player(word)" in cs and "symbol.player" not in cs:
+                # one constraint after an if/else on the player: the compared value is a local bound in both arms
+                other = c.rhs if "sub_mat" in repr(c.lhs) else c.lhs
+                if other[0] == "n":
+                    arms = [st for st in walk_no_nested(f.node) if isinstance(st, ast.If) and "symbol.player" in unparse(st.test) and st.orelse and
+                            all(any(isinstance(a, ast.Assign) and any(isinstance(t_, ast.Name) and t_.id == other[1] for t_ in a.targets) for a in ast.walk(ast.Module(body=blk, type_ignores=[])))
+                                for blk in (st.body, st.orelse))]
+                    if arms:
+                        fam["one-player-A"] = fam["one-player-A"] or c
+                        fam["one-player-B"] = fam["one-player-B"] or c
     for k, c in fam.items():
         ctx.ob(rule_prefix, f, f"moment-matrix family `{k}` present", c is not None,
                f"`{unparse(c.node)[:60]}`" if c is not None else f"the `{k}` family of moment-matrix constraints no longer reaches the returned list")
@@ -122,14 +132,38 @@ def check_npa(ctx, rule_prefix="R-SDP"):
            f"{n_sub} subscripts index (x, y) then (Alice's answer block, Bob's answer block)" if not bad else
            f"`{unparse(bad[0][0])[:80]}`: {bad[0][1]}", bad[0][0] if bad else None, required=n_sub >= 8)
 
-    # --- one-player sums range over ALL answers of the other player ---------------------------------------
-    for name, rng in (("sum_all_bob_meas", "b_out"), ("sum_all_alice_meas", "a_out")):
-        for n in walk_no_nested(f.node):
-            if isinstance(n, ast.Assign) and isinstance(n.targets[0], ast.Name) and n.targets[0].id == name and isinstance(n.value, ast.Call):
-                gens = [g for x in ast.walk(n.value) if isinstance(x, ast.GeneratorExp) for g in x.generators]
-                ok = len(gens) == 1 and unparse(gens[0].iter) == f"range({rng})" and not gens[0].ifs
-                ctx.ob("R-ENUM", f, f"{name} sums over range({rng})", ok, "marginal over all answers" if ok else
-                       f"`{unparse(gens[0].iter) if gens else '?'}`: the marginal no longer sums over every answer", n)
+    # --- sums over answer blocks of the assemblage range over ALL answers of the player whose block index is summed --------
+    #     (row block = Alice's answer, column block = Bob's answer; structural, independent of local names)
+    def _base_is_assemblage(expr, depth=0):
+        if isinstance(expr, ast.Subscript) and isinstance(expr.value, ast.Name) and expr.value.id == "assemblage":
+            return True
+        if isinstance(expr, ast.Name) and depth < 2:
+            defs = [a.value for a in walk_no_nested(f.node) if isinstance(a, ast.Assign) and len(a.targets) == 1 and isinstance(a.targets[0], ast.Name) and a.targets[0].id == expr.id]
+            return bool(defs) and all(_base_is_assemblage(d_, depth + 1) for d_ in defs)
+        return False
+
+    n_sums = 0
+    for call in walk_no_nested(f.node):
+        if not (isinstance(call, ast.Call) and isinstance(call.func, ast.Name) and call.func.id == "sum" and call.args and isinstance(call.args[0], (ast.GeneratorExp, ast.ListComp))):
+            continue
+        ge = call.args[0]
+        elt = ge.elt
+        if not (isinstance(elt, ast.Subscript) and isinstance(elt.slice, ast.Tuple) and len(elt.slice.elts) == 2 and _base_is_assemblage(elt.value)) or len(ge.generators) != 1:
+            continue
+        gv = {x.id for x in ast.walk(ge.generators[0].target) if isinstance(x, ast.Name)}
+        pos = [i for i, e in enumerate(elt.slice.elts) if gv & {x.id for x in ast.walk(e) if isinstance(x, ast.Name)}]
+        if len(pos) != 1:
+            continue
+        n_sums += 1
+        want_rng = "a_out" if pos[0] == 0 else "b_out"
+        who = "Alice" if pos[0] == 0 else "Bob"
+        it = N(ge.generators[0].iter)
+        ok = it == ("call", "builtins.range", (("n", want_rng),), ()) and not ge.generators[0].ifs
+        ctx.ob("R-ENUM", f, f"marginal over {who}'s answer blocks sums over range({want_rng})", ok, "all answers of the summed player" if ok else
+               f"`{unparse(ge)[:90]}` sums the {'row' if pos[0] == 0 else 'column'} blocks ({who}'s answers) over `{unparse(ge.generators[0].iter)}`: the marginal misses or over-runs {who}'s answer set "
+               "whenever the two players have different numbers of answers", call)
+    if n_sums < 2:
+        ctx.ob("R-ENUM", f, "marginals over answer blocks recognised", None, f"only {n_sums} block sums found", required=False)
     # --- assemblage block constraints ---------------------------------------------------------------------
     blocks = [c for c in sk.reaching()[0] if c.rel == ">>" and "assemblage" in repr(c.lhs) and c.rhs == ("c", 0)]
     want = {"range(a_in)", "range(b_in)", "range(a_out)", "range(b_out)"}
@@ -147,7 +181,17 @@ def check_npa(ctx, rule_prefix="R-SDP"):
             ctx.ob("R-ENUM", f, "trace normalisation accumulates over all answer pairs", ok, "loops over a and b" if ok else f"accumulation loops {loops}", n)
     # marginal consistency
     mc = [c for c in sk.reaching()[0] if c.rel == "==" and "sum_first_question" in repr(c.sides()) and "sum_cur_question" in repr(c.sides())]
-    scopes = [tuple(sorted(unparse(lp[2].iter) for lp in c.loops)) for c in mc]
+    def _scope_iters(c):
+        out = []
+        for lp in c.loops:
+            it = lp[2].iter
+            # itertools.product(r1, r2, ...) is the nest of loops over r1, r2, ...
+            if isinstance(it, ast.Call) and getattr(it.func, "attr", getattr(it.func, "id", "")) == "product" and not it.keywords:
+                out += [unparse(a) for a in it.args]
+            else:
+                out.append(unparse(it))
+        return tuple(sorted(out))
+    scopes = [_scope_iters(c) for c in mc]
     okb = ("range(1, a_in)", "range(b_in)", "range(b_out)") in [tuple(sorted(s)) for s in scopes]
     oka = ("range(1, b_in)", "range(a_in)", "range(a_out)") in [tuple(sorted(s)) for s in scopes]
     ctx.ob(rule_prefix, f, "Bob's marginal independent of Alice's question (all y, b, x>0)", okb, "present" if okb else f"scopes found: {scopes}")
